@@ -1,13 +1,18 @@
 """C18 — parallel processing yields exactly one result per payload.
 
 Oracle: offline checker over the history of results the real loop yields (vt/monitors/c18_sched.py
-`check_history`): every payload carries a unique id; exactly one result per id, carrying the task
-function's outcome or the exception it raised, and multiset equality with the sequential mode
-(`parallel=False`) on (payload id, outcome, type(exception), exception.args).
+`check_history`): every payload carries an id the checker reads back from result.payload; exactly one result
+per list position (an id listed k times: exactly k results), carrying the task function's outcome or the
+exception it raised, and multiset equality with the sequential mode (`parallel=False`) on
+(payload id, outcome, type(exception), exception.args).
 
 Workloads: (a) the real `parproc()`/`parallel_proc()` generator driven under a deterministic executor
 whose completion schedule is a decision sequence, enumerated depth-first to exhaustion per
 (payload count, workers, raising subset); (b) real ProcessPoolExecutor runs in a child process.
+(b') in both: the captured exception ranges over the builtin exception hierarchy (c18_sched.EXC_KIND_NAMES: every
+builtin Exception class outside the RuntimeError family, errno-built OSErrors, standard-library and user-defined
+classes incl. multiple inheritance), and payload lists in which different positions compare equal: the same object
+listed again, equal twins, payload classes whose ==/hash ignore the id, unhashable payloads.
 (c) disturbed runs in both: the consumer abandons a run (stop event of a Result / close), or a payload
 cannot be carried to a captured result (not picklable, undeclared exception); judged by the relaxed
 oracle `check_disturbed`, and - the point of them - followed in the same process by ordinary runs that
@@ -34,8 +39,24 @@ RULE = ('cases = one run of the real parallel loop (tatsu.parproc.parproc / para
         '(at every submit, yield and wait: complete one more running future - at most `workers` run, FIFO start - or '
         'stop; a blocked wait forces a completion) is enumerated depth-first to exhaustion, each leaf one single-threaded '
         'run of the real generator with the real taskproc and the real concurrent.futures.as_completed; payload class, '
-        'exception kind, raises() declaration, entry point, pickable, extra args and as_completed hand-out order rotate '
-        'with the configuration index. sampled slice: seeded random decision sequences for n=5..10, workers 1..4. '
+        'raises() declaration, entry point, pickable, extra args and as_completed hand-out order rotate with the '
+        'configuration index. exception kinds: every builtin Exception class that is not a RuntimeError (OSError family '
+        'with every errno subclass, EOFError, Lookup/Arithmetic/Value/Unicode/Import/Name/Syntax families, AttributeError, '
+        'AssertionError, BufferError, MemoryError, ReferenceError, SystemError, StopIteration, StopAsyncIteration, '
+        'ExceptionGroup, the Warning classes), OSError(errno, text) for nine errnos (the constructor picks the subclass), '
+        'io.UnsupportedOperation, json.JSONDecodeError, subprocess.CalledProcessError, pickle.UnpicklingError and seven '
+        'user-defined classes (subclasses of KeyError / ConnectionError / EOFError, two bases, own constructor), each '
+        'built with arguments its constructor takes and admitted only if an instance survives a pickle round trip with '
+        'type and args; the kinds rotate over the raising slots of the plan, largest trees first, so that every kind is '
+        'raised in the n>=4 trees, and every real-pool shard has one case that raises every kind once. '
+        'equal payloads: every fourth deterministic configuration uses a payload class whose == and hash ignore the id '
+        '(class with __eq__/__hash__ on a group key, the same without __hash__, a list subclass, a dataclass comparing one '
+        'content field, its frozen form, a class with a constant hash) with all payloads in one or two groups; further '
+        'trees over lists that name a payload more than once (the same object / a separately built equal twin; adjacent, '
+        'first-and-last = the repetition arrives as a refill, all positions, two interleaved pairs; nothing / the repeated '
+        'payload / everything raising); a quarter of the sampled schedules and a quarter of the real-pool cases repeat '
+        'payloads, another quarter of the real-pool cases uses the id-blind classes. A repeated payload has the id of its '
+        'first occurrence: the checker wants k results for an id listed k times. sampled slice: seeded random decision sequences for n=5..10, workers 1..4. '
         'real slice: seeded (n<=200, workers 1..16|None, sleeps, raising probability) with real process pools. '
         'disturbed runs (all three slices): a run whose consumer abandons it after k results (sets the stop event that every '
         'Result carries and goes on iterating, sets it and closes the generator, or only closes it), and a run in which one '
@@ -68,8 +89,18 @@ ASSUMPTIONS = [
     'before it runs and the result after it ran (a failure completes the future with that exception, as the queue feeder / '
     'the worker of a real pool do); concurrent.futures.ThreadPoolExecutor is replaced by the same deterministic executor '
     '(without that boundary) so that a loop falling back to threads stays single-threaded',
-    'a VisualPayload whose function raises TypeError is called a second time with the path (documented HACK); that '
-    'combination is not generated',
+    'a VisualPayload whose function raises TypeError (or a subclass) is called a second time with the path (documented '
+    'HACK); that combination is not generated (the payload class is switched, not the exception)',
+    'which exception classes: all builtin subclasses of Exception except RuntimeError and its subclasses (taskproc always '
+    're-raises those), plus the listed standard-library / user-defined ones; KeyboardInterrupt, SystemExit and GeneratorExit '
+    'are not Exceptions and not generated; a class is used only if an instance built by the workload survives '
+    'pickle.loads(pickle.dumps()) with its type and args (checked at import; the list of rejected kinds is '
+    'c18_sched.EXC_KINDS_SKIPPED, empty on CPython 3.12); exceptions are compared by type name and args',
+    'payloads that compare equal: the statement promises one result per payload *in the list*; the checker reads the id '
+    'from result.payload.payload, so results of different payloads that compare equal stay distinguishable; list '
+    'positions holding the same payload (same object or equal twin from one spec) are indistinguishable by design and '
+    'counted: an id listed k times must get exactly k results, each carrying what the function does for it, and the '
+    'multiset comparison with the sequential mode counts multiplicities',
     'the sequential mode is itself checked against the workload specification (what the task function returns/raises), '
     'so agreement of two wrong modes is not accepted',
 ]
@@ -98,7 +129,14 @@ FLOORS = {
               'det_sampled_disturbed_schedules': 400,
               'real_stopped_runs': 3, 'real_stopped_sequential_runs': 3, 'real_full_runs_after_stopped_run': 8,
               'real_shortcut_runs_after_stopped_run': 1, 'real_poison_runs': 5, 'real_poison_end_after_results': 2,
-              'real_full_runs_after_poison_end': 10},
+              'real_full_runs_after_poison_end': 10,
+              # payload lists with equal / repeated payloads
+              'det_equal_trees_complete': 28, 'det_schedules_equal_payloads': 25000,
+              'det_schedules_distinct_equal_payloads': 20000, 'det_schedules_same_payload_listed_twice': 3000,
+              'det_results_of_repeated_payloads': 15000, 'det_schedules_unhashable_payloads': 80000,
+              'det_schedules_hash_equal_unequal_payloads': 1000,
+              'real_runs_equal_payloads': 8, 'real_runs_distinct_equal_payloads': 4,
+              'real_runs_same_payload_listed_twice': 4, 'real_results_of_repeated_payloads': 16},
     'thorough': {'det_schedules': 2000000, 'det_trees_complete': 250, 'det_refill_schedules': 1400000,
                  'det_schedules_with_captured_exception': 2000000, 'det_out_of_order_schedules': 1800000,
                  'det_completed_outside_wait': 9000000, 'det_forced_in_wait': 2000000,
@@ -109,30 +147,96 @@ FLOORS = {
                  'det_sampled_disturbed_schedules': 36000,
                  'real_stopped_runs': 24, 'real_stopped_sequential_runs': 24, 'real_full_runs_after_stopped_run': 150,
                  'real_shortcut_runs_after_stopped_run': 10, 'real_poison_runs': 50, 'real_poison_end_after_results': 20,
-                 'real_full_runs_after_poison_end': 150},
+                 'real_full_runs_after_poison_end': 150,
+                 'det_equal_trees_complete': 150, 'det_schedules_equal_payloads': 500000,
+                 'det_schedules_distinct_equal_payloads': 400000, 'det_schedules_same_payload_listed_twice': 60000,
+                 'det_results_of_repeated_payloads': 300000, 'det_schedules_unhashable_payloads': 1500000,
+                 'det_schedules_hash_equal_unequal_payloads': 20000,
+                 'real_runs_equal_payloads': 100, 'real_runs_distinct_equal_payloads': 48,
+                 'real_runs_same_payload_listed_twice': 48, 'real_results_of_repeated_payloads': 200},
 }
+
+
+def _exception_floors():
+    """every exception class of the matrix must have been seen captured in a yielded Result, in both slices"""
+    from ..monitors import c18_sched as S
+    for tier, det, real in (('quick', 200, 3), ('thorough', 50000, 40)):
+        for name in S.EXC_CLASS_NAMES:
+            FLOORS[tier]['det_captured:' + name] = det
+            FLOORS[tier]['real_captured:' + name] = real
+
+
+_exception_floors()
 
 ARGSETS = [([], {}), ([7], {}), (['x', 2], {'k': 'v'})]
 N6_MASKS = [0, 63, 1, 32, 21, 42, 7, 56]
 
 
+EQUAL_LAYOUTS = ('adjacent', 'ends', 'all', 'pairs')
+TWIN_CLASSES = ('visual', 'group', 'data', 'listy', 'datafrozen', 'groupnohash')      # compare by value
+SAME_CLASSES = ('plain', 'visual', 'proto', 'group', 'data', 'consthash', 'listy')
+
+
+def equal_pairs(layout, n):
+    """-> [[j, i], ...]: list position i holds the payload of position j once more"""
+    if layout == 'adjacent':
+        return [[0, 1]]
+    if layout == 'ends':
+        return [[0, n - 1]]
+    if layout == 'all':
+        return [[0, i] for i in range(1, n)]
+    return [[0, 2], [1, 3]] if n >= 4 else [[0, n - 1]]
+
+
+def apply_equal(specs, how, pairs, rot):
+    """list some payloads a second time: the same object ('same') or a separately built payload from the same spec
+    ('twin', in a class that compares by value, so that the two are equal).  The repeated position takes the spec of
+    the first (uid, behaviour): the checker counts results per uid."""
+    from ..monitors import c18_sched as S
+    for j, i in pairs:
+        if any(k in specs[j] for k in S.LIST_KEYS) or specs[j].get('poison') or specs[i].get('poison'):
+            continue
+        if any(sp.get(k) == i for sp in specs for k in S.LIST_KEYS):      # i is itself repeated elsewhere: stays
+            continue
+        pool = TWIN_CLASSES if how == 'twin' else SAME_CLASSES
+        cls = pool[(rot + j) % len(pool)]                # (a function of j: every repetition of j sees the same class)
+        if cls == 'visual' and S.is_type_error(specs[j]['exc']):
+            cls = 'group'
+        specs[j]['cls'] = cls
+        if cls == 'visual':
+            specs[j]['raises'] = 'none'
+        if cls in S.EQ_CLASS_NAMES:
+            specs[j].setdefault('group', 'g')
+        specs[i] = dict(specs[j], **{'same_as' if how == 'same' else 'twin_of': j})
+
+
 def det_config(idx, n, workers, mask, extra=None):
     from ..monitors import c18_sched as S
+    extra = extra or {}
+    nk = len(S.EXC_KIND_NAMES)
+    kbase = extra.get('kbase', 3 * idx)
+    # every fourth configuration: payloads of a class whose == / hash do not look at the id (all of one group, or of
+    # two groups alternating), so that different tasks compare equal
+    eqcls = S.EQ_CLASS_NAMES[(idx // 4) % len(S.EQ_CLASS_NAMES)] if idx % 4 == 2 and not extra.get('poison') else None
     specs = []
+    rank = 0
     for i in range(n):
-        cls = ('plain', 'proto', 'visual')[(idx + i) % 3]
+        cls = eqcls or ('plain', 'proto', 'visual')[(idx + i) % 3]
         exc = None
         if mask >> i & 1:
-            k = (idx + 2 * i) % len(S.EXC_KIND_NAMES)
-            exc = S.EXC_KIND_NAMES[k]
-            if cls == 'visual' and exc == 'type':
-                exc = 'custom'
-        specs.append({'uid': 100 + i, 'exc': exc, 'cls': cls,
-                      'raises': 'none' if cls == 'visual' else S.RAISES_NAMES[(idx + i) % len(S.RAISES_NAMES)]})
+            exc = S.EXC_KIND_NAMES[(kbase + rank) % nk]          # the kinds rotate over the raising slots
+            rank += 1
+            if cls == 'visual' and S.is_type_error(exc):
+                cls = 'plain'
+        sp = {'uid': 100 + i, 'exc': exc, 'cls': cls,
+              'raises': 'none' if cls == 'visual' else S.RAISES_NAMES[(idx + i) % len(S.RAISES_NAMES)]}
+        if eqcls:
+            sp['group'] = 'g' if idx % 8 == 2 else f'g{i % 2}'
+        specs.append(sp)
     args, kwargs = ARGSETS[idx % len(ARGSETS)]
     cfg = {'idx': idx, 'n': n, 'workers': workers, 'mask': mask, 'specs': specs, 'args': list(args), 'kwargs': dict(kwargs),
            'entry': 'legacy' if idx % 5 == 3 else 'parproc', 'pickable': idx % 4 == 1, 'hash_rev': idx % 2 == 1}
-    if extra and extra.get('poison'):
+    if extra.get('poison'):
         # one payload that cannot be carried to a captured result (c18_sched.POISON_KINDS); the executor models the
         # process boundary for this configuration (a call / result that cannot be pickled fails its future)
         pos, kind = extra['poison']
@@ -142,16 +246,21 @@ def det_config(idx, n, workers, mask, extra=None):
             if sp['cls'] == 'visual':
                 sp['cls'] = 'plain'
             names = [k for k in S.EXC_KIND_NAMES if k != 'stopiter']
-            sp['exc'] = names[(idx + pos) % len(names)]
+            sp['exc'] = names[(idx * 7 + pos) % len(names)]
             sp['raises'] = 'exact'
         cfg['transport'] = True
         cfg['disturbed'] = kind
         cfg['extra'] = extra
+    if extra.get('equal'):
+        how, pairs = extra['equal']
+        apply_equal(specs, how, pairs, idx)
+        cfg['extra'] = extra
+    cfg['equal'] = S.equal_facts(specs)
     return cfg
 
 
 def det_plan(tier):
-    """-> list of (weight, idx, n, workers, mask[, extra])"""
+    """-> list of (weight, idx, n, workers, mask, extra)"""
     from ..monitors import c18_sched as S
     out = []
     idx = 0
@@ -159,15 +268,21 @@ def det_plan(tier):
     for n in range(0, nmax + 1):
         for w in (1, 2, 3):
             for mask in range(2 ** n):
-                out.append((TREE.get((n, w), 1), idx, n, w, mask))
+                out.append((TREE.get((n, w), 1), idx, n, w, mask, {}))
                 idx += 1
     if tier == 'thorough':
         for mask in range(64):
-            out.append((TREE[(6, 1)], idx, 6, 1, mask))
+            out.append((TREE[(6, 1)], idx, 6, 1, mask, {}))
             idx += 1
         for mask in N6_MASKS:
-            out.append((TREE[(6, 2)], idx, 6, 2, mask))
+            out.append((TREE[(6, 2)], idx, 6, 2, mask, {}))
             idx += 1
+    # the exception kinds rotate over the raising slots of the whole plan, largest trees first: every kind is raised
+    # (and must be captured) in trees with n >= 4
+    slot = 0
+    for item in sorted(out, key=lambda t: (-t[2], t[1])):
+        item[5]['kbase'] = slot
+        slot += bin(item[4]).count('1')
     # poison trees: every position of one payload that cannot be carried to a captured result, inside and beyond the
     # submission window of 1 + workers, with none / some of the others raising captured exceptions
     idx = 10000
@@ -177,7 +292,28 @@ def det_plan(tier):
                 for m in range(2 if tier == 'quick' or n == 5 else 4):
                     mask = 0 if m == 0 else (idx * 5 + 3) % (2 ** n)
                     kind = S.POISON_KINDS[idx % len(S.POISON_KINDS)]
-                    out.append((max(1, TREE.get((n, w), 1) // 2), idx, n, w, mask, {'poison': [pos, kind]}))
+                    out.append((max(1, TREE.get((n, w), 1) // 2), idx, n, w, mask, {'poison': [pos, kind], 'kbase': idx * 3}))
+                    idx += 1
+    # trees over lists that name a payload more than once: the same object again, or an equal twin; next to each other
+    # (both inside the first submission window), first and last (the repetition arrives as a refill), all positions
+    # the same payload, two interleaved pairs; nothing / the first payload / everything raising
+    idx = 20000
+    if tier == 'quick':
+        shapes = [(2, w, ('adjacent',), ('same', 'twin'), (0, 1)) for w in (1, 2)]
+        shapes += [(3, w, EQUAL_LAYOUTS[:3], ('same', 'twin'), None) for w in (1, 2)]
+        shapes += [(4, 1, EQUAL_LAYOUTS, ('same', 'twin'), None), (4, 2, ('ends',), ('same',), (0,)),
+                   (4, 2, ('pairs',), ('twin',), (1,))]
+    else:
+        shapes = [(n, w, EQUAL_LAYOUTS[:1 if n == 2 else 3 if n == 3 else 4], ('same', 'twin'), (0, 1, 2 ** n - 1))
+                  for n in (2, 3, 4) for w in (1, 2, 3)]
+        shapes += [(5, 1, EQUAL_LAYOUTS, ('same', 'twin'), None), (5, 2, ('ends',), ('same',), (0,)),
+                   (5, 2, ('pairs',), ('twin',), (1,))]
+    for n, w, layouts, hows, masks in shapes:
+        for layout in layouts:
+            for how in hows:
+                for mask in (masks if masks is not None else ((0, 1, 2 ** n - 1)[idx % 3],)):
+                    out.append((TREE.get((n, w), 1), idx, n, w, mask,
+                                {'equal': [how, equal_pairs(layout, n)], 'kbase': idx * 3}))
                     idx += 1
     return out
 
@@ -242,10 +378,31 @@ def judge_det(acc, cfg, h, seq, seq_end, origin, abandon=None, before=None):
     acc.count('det_forced_in_wait', h['forced_in_wait'])
     acc.count('det_completed_outside_wait', h['completed_while_busy'])
     acc.count('det_results_checked', len(h['records']))
-    ncap = sum(1 for r in h['records'] if r.get('exc'))
+    ncap = 0
+    for r in h['records']:
+        if r.get('exc'):
+            ncap += 1
+            acc.count('det_captured:' + r['exc'])
     acc.count('det_captured_exceptions_yielded', ncap)
     if ncap:
         acc.count('det_schedules_with_captured_exception')
+    eq = cfg.get('equal') or {}
+    eqwhat = ''
+    if eq.get('equal_pairs') or eq.get('same_object_pairs'):
+        acc.count('det_schedules_equal_payloads')
+        eqwhat = (f' payload list: {eq.get("same_object_pairs", 0)} pairs of positions hold the same object, '
+                  f'{eq.get("equal_pairs", 0)} pairs distinct objects that compare equal;')
+    if eq.get('equal_pairs'):
+        acc.count('det_schedules_distinct_equal_payloads')
+    if eq.get('same_object_pairs'):
+        acc.count('det_schedules_same_payload_listed_twice')
+    if eq.get('repeated_uids'):
+        rep_uids = {u for u, m in S._listed(cfg['specs']).items() if m > 1}
+        acc.count('det_results_of_repeated_payloads', sum(1 for r in h['records'] if r.get('uid') in rep_uids))
+    if eq.get('unhashable'):
+        acc.count('det_schedules_unhashable_payloads')
+    if eq.get('hash_equal_unequal_pairs'):
+        acc.count('det_schedules_hash_equal_unequal_payloads')
     if h['blocked_in_result']:
         acc.count('det_blocked_in_result', h['blocked_in_result'])
     if h['ran_at_shutdown']:
@@ -267,7 +424,7 @@ def judge_det(acc, cfg, h, seq, seq_end, origin, abandon=None, before=None):
         acc.count('det_out_of_order_schedules')
     if h['executors']:
         acc.nontriv(cfg['idx'], cfg['n'], cfg['workers'], cfg['mask'], order, yielded, json.dumps(abandon, sort_keys=True))
-    what = ''
+    what = eqwhat
     if cfg.get('disturbed') or abandon:
         # a run the statement does not determine completely: relaxed oracle, the open parts are counted
         stop_after = abandon['after'] if abandon else None
@@ -275,7 +432,7 @@ def judge_det(acc, cfg, h, seq, seq_end, origin, abandon=None, before=None):
                                         cfg['pickable'], stop_after=stop_after)
         acc.count('det_disturbed_runs')
         if abandon:
-            what = f' consumer: {abandon["how"]} after {abandon["after"]} results;'
+            what += f' consumer: {abandon["how"]} after {abandon["after"]} results;'
             acc.count('det_abandoned_runs:' + abandon['how'])
             if h['abandon'].get('stop_set'):
                 acc.count('det_stopped_runs')
@@ -334,7 +491,7 @@ def run_det(desc, acc):
     if not hook_reached(acc):
         return
     for idx, n, w, mask, *extra in desc['configs']:
-        extra = extra[0] if extra else None
+        extra = extra[0] if extra else {}
         cfg = det_config(idx, n, w, mask, extra)
         # call sequences: every tree is enumerated in a process in which the consumer of an earlier run has stopped
         # that run; nothing of it may leak into the runs that follow
@@ -355,19 +512,24 @@ def run_det(desc, acc):
             bad += 1 if judge_det(acc, cfg, h, seq, seq_end, origin, before=before if after_stop else None) else 0
             prefix, expect = S.next_prefix(h['trace'])
             if prefix is None:
-                acc.count('det_poison_trees_complete' if extra else 'det_trees_complete')
+                acc.count('det_poison_trees_complete' if extra.get('poison') else
+                          'det_equal_trees_complete' if extra.get('equal') else 'det_trees_complete')
                 break
             if bad >= 5:
                 acc.count('det_trees_abandoned_after_violations')
                 break
         acc.count('det_distinct_completion_orders', len(orders))
         acc.count(f'det_schedules_n{n}', runs)
-        if extra and n >= 4 and w == 2 and extra['poison'][0] == n - 1:
+        if extra.get('poison') and n >= 4 and w == 2 and extra['poison'][0] == n - 1:
             acc.sample({'slice': 'deterministic, one payload that cannot be carried to a captured result', 'n': n, 'workers': w,
                         'poison': extra['poison'], 'schedules_enumerated': runs, 'last_end': h['end'],
                         'last_schedule_events': [list(e) for e in h['events']][:60],
                         'last_yielded': [[r.get('uid'), r.get('exc')] for r in h['records']]})
-        if n >= 4 and mask == 5 and w == 2:
+        if extra.get('equal') and n >= 4 and w == 2:
+            acc.sample({'slice': 'deterministic, payloads listed more than once', 'n': n, 'workers': w, 'equal': extra['equal'],
+                        'payload_list': cfg['equal'], 'specs': cfg['specs'], 'schedules_enumerated': runs,
+                        'last_yielded': [[r.get('uid'), r.get('exc')] for r in h['records']]})
+        if n >= 4 and mask == 5 and w == 2 and not extra.get('poison') and not extra.get('equal'):
             acc.sample({'slice': 'deterministic', 'n': n, 'workers': w, 'raising_uids': [s['uid'] for s in cfg['specs'] if s['exc']],
                         'entry': cfg['entry'], 'schedules_enumerated': runs, 'distinct_completion_orders': len(orders),
                         'last_schedule_events': [list(e) for e in h['events']][:60],
@@ -384,7 +546,16 @@ def sampled_config(rng, i):
         mask = 2 ** n - 1
     else:
         mask = rng.getrandbits(n)
-    cfg = det_config(rng.randrange(60), n, w, mask)
+    from ..monitors import c18_sched as S
+    extra = {'kbase': rng.randrange(len(S.EXC_KIND_NAMES))}
+    if rng.random() < 0.25:
+        # some payloads are listed again (the same object or an equal twin); first occurrences are never repetitions
+        first = sorted(rng.sample(range(n - 1), rng.randint(1, 2)))
+        later = [i for i in range(1, n) if i not in first]
+        rng.shuffle(later)
+        pairs = sorted([rng.choice([j for j in first if j < i]), i] for i in later[:rng.randint(1, max(1, n // 3))] if i > first[0])
+        extra['equal'] = [rng.choice(['same', 'twin']), pairs]
+    cfg = det_config(rng.randrange(60), n, w, mask, extra)
     cfg['idx'] = 100000 + i
     cfg['p_stop'] = rng.choice([0.2, 0.5, 0.8])
     return cfg
@@ -535,6 +706,26 @@ def judge_real(acc, case, rec, state=None):
         acc.count('real_runs_complete')
     acc.count('real_results_checked', sum(1 for r in par if r.get('uid') is not None))
     acc.count('real_captured_exceptions_yielded', sum(1 for r in par if r.get('exc')))
+    for r in par:
+        if r.get('exc'):
+            acc.count('real_captured:' + r['exc'])
+    eq = S.equal_facts(specs)
+    eqwhat = ''
+    if n >= 2 and (eq['equal_pairs'] or eq['same_object_pairs']):
+        acc.count('real_runs_equal_payloads')
+        eqwhat = (f' payload list: {eq["same_object_pairs"]} pairs of positions hold the same object, {eq["equal_pairs"]} pairs '
+                  f'distinct objects that compare equal;')
+        if eq['equal_pairs']:
+            acc.count('real_runs_distinct_equal_payloads')
+        if eq['same_object_pairs']:
+            acc.count('real_runs_same_payload_listed_twice')
+        if eq['repeated_uids']:
+            rep_uids = {u for u, m in S._listed(specs).items() if m > 1}
+            acc.count('real_results_of_repeated_payloads', sum(1 for r in par if r.get('uid') in rep_uids))
+    if n >= 2 and eq['unhashable']:
+        acc.count('real_runs_unhashable_payloads')
+    if n >= 2 and eq['hash_equal_unequal_pairs']:
+        acc.count('real_runs_hash_equal_unequal_payloads')
     metas = [r['meta'] for r in par if r.get('meta')]
     if metas:
         pids = {m['pid'] for m in metas}
@@ -606,7 +797,7 @@ def judge_real(acc, case, rec, state=None):
             w['before'] = before
         acc.violation('real:' + sig,
                       f'real process pool, n={n} max_workers={case["workers"]} raising={sum(1 for s in specs if s["exc"])} '
-                      f'entry={case["entry"]}{what}: {text}', w)
+                      f'entry={case["entry"]}{what}:{eqwhat} {text}', w)
     return viol
 
 
@@ -716,7 +907,11 @@ MANIFEST = {
                   'and sampled real ProcessPoolExecutor runs (n<=200, workers 1..16) complete it. Further fault classes: a payload '
                   'that cannot be carried to a captured result at every position (trees enumerated with a pickling process '
                   'boundary in the executor model, and real pools), and call sequences in one process in which an earlier run '
-                  'was stopped or closed by its consumer or ended with an exception to the caller',
+                  'was stopped or closed by its consumer or ended with an exception to the caller. Input classes rotated '
+                  'through all of it: the captured exception ranges over the builtin exception hierarchy (about 80 kinds, '
+                  'every one raised in the n>=4 trees and once per real-pool shard), and payload lists whose positions '
+                  'compare equal (id-blind ==/hash, unhashable payloads, the same payload listed several times: k positions '
+                  '=> exactly k results)',
     'level_note': 'exhaustive only within the executor model stated in the assumptions (FIFO start, <=max_workers running, '
                   'completions observable at submit/yield/wait) and the payload-count bound; the real-pool slice is a sample and '
                   'its schedules are whatever the OS produced (distinct worker pids, overlap and out-of-order completions are '
